@@ -6,8 +6,8 @@ sys.path.insert(0, os.path.join(ROOT, "lib"))
 import propcfg
 
 LEVEL = {
- "C01": ("Machine-checked theorems over all annotated trees that stripping a restored view is the property's projection and (C03/C08 files) that the restore loop ends in the view determined by the presented disclosures; tied to /repo by a differential run in which the Gallina model of Issuer::encode must reproduce the library's token exactly from the read-back random choices and the model of Holder::verify must agree, with the oracle claims == original (+cnf) and paths == marked paths.",
-         "partial: the composed theorem issue-then-verify = identity is proved for the prototype issuer fold (append order) and is being ported to the final issuer model with random insertion positions; until then the round trip is carried by the correspondence run and the oracle"),
+ "C01": ("Machine-checked theorem over the final Gallina models (issuer fold with string paths and random insertion positions; complete restore_disclosures with pass loop, duplicate and structure checks): for every well-formed claims value, every list of paths on which marking succeeds, all distinct salt draws, all position draws and any injective hash/encoding, restoring the issuer's payload with all its disclosures succeeds and stripping gives back exactly the original claims; tied to /repo by a differential run in which the model must reproduce the library's token exactly from the read-back random choices and agree with Holder::verify, with the oracle claims == original (+cnf) and paths == marked paths.",
+         "partial: 'valid marking => marking succeeds', the path component and encode's post-processing (decoys, top-level shuffle, _sd_alg, cnf, JWT layer) are carried by the correspondence run and its oracle, not yet by the theorem; premises hash_inj, dec_enc"),
  "C02": ("Machine-checked theorems about the Gallina model of Holder::redact/build: redacting a non-disclosable path changes nothing, the result depends on the set of redactions only, every disclosure that is neither redacted nor below a redacted disclosable claim is presented; tied to /repo by a differential run (library- and reference-issued tokens, bound and unbound) in which the model must reproduce the presentation string and the verifier's claims must equal the original minus the withheld claims.",
          "partial: the end-to-end equation verifier(build(redact R)) = project is exercised by the correspondence run; the theorems are about the holder's selection; composition with the restore theorems (C03) is pending"),
  "C04": ("Machine-checked exact characterisation (iff) of when the Gallina model of decode accepts (parse, configured algorithm, key family table, signature oracle, object payload, claim checks), the corollary that under an ideal signature oracle only the exact issued token, the configured algorithm and a key of the right family are accepted, and that holder and verifier fail whenever the first segment does not decode; tied to /repo by a differential run over all 13 algorithms with per-position mutations, the full key x algorithm matrix and algorithm-confusion tokens.",
@@ -18,12 +18,12 @@ LEVEL = {
          "partial: 'no byte' is checked at the level of the decoded JSON texts; the issuer-side atom theorem is pending the port of the issuer fold proofs"),
  "C07": ("Machine-checked theorems that a built disclosure decodes back to its name and value with digest = hash of its string, and that the serialised token splits into JWT, exactly the disclosures and no KB-JWT; the conformance judgement itself is executed by an independent reference verifier written in Gallina (RefVerify.v, the specification's top-down algorithm, sharing no code with the model of the library's restorer) on independently decoded library output, for every sub-list of disclosures.",
          "partial: 'reference verifier on issuer output = projection' is established per run on the generated tokens (all sub-lists up to 2^6/2^8), not yet as a theorem"),
- "C08": ("Machine-checked theorem over every conformant token (any well-formed annotated tree: any digest function, decoys anywhere, recursive disclosures) and every duplicate-free decodable list in any order that the restore loop ends in the view of the presented set, plus the lemma that the digest algorithm is the one named by _sd_alg; tied to /repo by a differential run on tokens from an independent reference issuer with three-way agreement between library, extracted model and independent reference verifier.",
-         "partial: theorem covers the pass loop; post-pass duplicate/structure checks and the holder flow are carried by the correspondence run; premises hash_inj, dec_enc"),
+ "C08": ("Machine-checked theorem over every conformant token (any well-formed annotated tree: any digest function, decoys anywhere, recursive disclosures) and every duplicate-free decodable list in any order that the complete restore_disclosures accepts and returns the view of the presented set, plus the lemma that the digest algorithm is the one named by _sd_alg; tied to /repo by a differential run on tokens from an independent reference issuer with three-way agreement between library, extracted model and independent reference verifier (RefVerify.v).",
+         "the holder flow on foreign tokens is carried by the correspondence run; premises hash_inj, dec_enc"),
  "C09": ("Machine-checked shape theorem for the model of Holder::build with key binding (prefix ++ KB-JWT over {alg, typ: kb+jwt} and {aud, iat, nonce, sd_hash = hash of exactly the prefix under _sd_alg}) and repeatability; tied to /repo by a differential run with 6 RSA algorithms, 3 digest algorithms, repeated builds, independent recomputation of sd_hash and independent RSA signature verification.",
          "partial: freshness of the nonce and correctness of the clock are properties of thread_rng/chrono (oracles); the run checks distinctness and the iat window only"),
- "C03": ("Machine-checked theorems (induction over all annotated trees and all disclosure lists) that the modelled restore algorithm ends in exactly the view determined by the set of presented disclosures, and that stripping a view is the property's projection; tied to /repo by a differential run of Holder::verify, Verifier::verify and Holder::presentation against the extracted model on reference-issued tokens with adversarial lists. Proof is the right level: the quantifier ranges over every list an attacker can type.",
-         "partial: theorem currently covers the pass loop for duplicate-free lists (duplicates and the post-pass checks are exercised by the correspondence run only); premises hash_inj and dec_enc idealise SHA-2 collision resistance and base64/JSON round-tripping"),
+ "C03": ("Machine-checked theorem over all annotated trees (any shape, marking, decoys, nesting up to the depth limit) and all duplicate-free lists of presented strings in any order: the COMPLETE restore_disclosures of the model (decode all, passes until no progress, duplicate and structure checks) rejects or returns exactly the view determined by the set of presented disclosures, accepts when every string decodes, and stripping a view is the property's projection; tied to /repo by a differential run of Holder::verify, Verifier::verify and Holder::presentation against the extracted model on reference-issued tokens with adversarial lists.",
+         "lists with repetitions are covered by the correspondence run only (theorem premise NoDup L); premises hash_inj and dec_enc idealise SHA-2 collision resistance and base64/JSON round-tripping"),
  "C15": ("Machine-checked theorem that the tag-collection walk reports nothing for untagged nodes and leaves an untagged tree unchanged (for every YAML value tree); tied to /repo by a differential run over generated YAML documents (all tag placements the property names) in which the Gallina model of the walk and of the YAML->JSON conversion runs on the very value tree serde_yaml builds from the text, with the oracle claims == C, set(paths) == M, nested-before-enclosing order, and the end-to-end issue/verify round trip.",
          "partial: the theorem 'every tagged node is reported exactly once, descendants first' is carried by the correspondence run and oracle so far; YAML text -> tree is serde_yaml (oracle)"),
  "C16": ("Machine-checked theorem that the translated header's JSON has each set field under the member of the same meaning, no member for unset fields and no other member, for every header value; tied to /repo by a differential run over all 2^9 subsets of optional fields with five value classes and all 13 algorithms through Issuer::header/encode, decode, Holder::verify and Verifier::verify, in which the model's build_header must print the header the token carries.",
